@@ -236,7 +236,7 @@ func leftoverFifo(ctx *Ctx) {
 }
 
 func checkC03(ctx *Ctx) {
-	ctx.Res.Rule = "chain workflows; histories of 1-3 attempts, each killed (SIGKILL of the process group) at the n-th occurrence of one of 20 instrumented points, each followed or not by removal of _scipipe_tmp* / *.fifo, then a final run; non-trivial = at least one attempt was really killed; distinct by (chain, history). Checks after every attempt: every file at a final path equals the uninterrupted content, finalized tasks are not re-executed, leftovers make the next run fail; after the final run: file set and contents equal the uninterrupted result."
+	ctx.Res.Rule = "chain workflows; histories of 1-3 attempts, each killed (SIGKILL of the process group) at the n-th occurrence of one of 20 instrumented points, each followed or not by removal of _scipipe_tmp* / *.fifo, then a final run; non-trivial = at least one attempt was really killed; distinct by (chain, history). Checks after every attempt: every file at a final path equals the uninterrupted content, finalized tasks are not re-executed, leftovers make the next run fail; after the final run: file set and contents equal the uninterrupted result; also: a leftover FIFO without a temp dir, and the audit files (lineage modulo IDs and times) after kill + cleanup + re-run against the uninterrupted run's."
 	r := NewRng(ctx.Seed)
 	n := 40
 	if ctx.Thorough() {
